@@ -97,6 +97,10 @@ structure Cache where
 structure Limiter where
   spec : List Schema
   caches : Str → Option Cache
+  /-- `upstreamLimiter.rateLimiter`: `local` / `remote` (set by `ResetLimiter`). The gateway is modelled
+      without limiter-server client sets (`clientSets == nil`), so `Load` hands out the local limiter in every
+      mode; a mode switch touches neither the caches nor the applied spec. -/
+  mode : Str := []
 
 /-- what a request in flight holds -/
 structure Req where
@@ -179,15 +183,38 @@ def sync (w : World) (c : Str) (schemas : List Schema) : Except String World :=
     | .error e => .error e
     | .ok w' =>
       let l := w'.lims c
-      .ok (w'.setLim c { spec := schemas,
-                         caches := fun n => if n ∈ names old ∧ n ∉ names schemas then none else l.caches n })
+      let l' : Limiter :=
+        { spec := schemas, mode := l.mode,
+          caches := fun n => if n ∈ names old ∧ n ∉ names schemas then none else l.caches n }
+      .ok (w'.setLim c l')
+
+def modeLocal : Str := [108, 111, 99, 97, 108]          -- "local"
+def modeRemote : Str := [114, 101, 109, 111, 116, 101]  -- "remote"
+
+/-- `upstreamLimiter.Load` after the map lookup succeeded, `clientSets == nil`:
+    `remote` ⇒ "clientSets is nil" ⇒ local; `local` ⇒ local; anything else ⇒ "unknown type" ⇒ local. -/
+def loadLimiter (mode : Str) (cache : Cache) : Option Nat :=
+  if mode = modeRemote then cache.cur
+  else if mode = modeLocal then cache.cur
+  else cache.cur
+
+/-- `ResetLimiter(rateLimiter)`: `if rateLimiter != f.rateLimiter { f.rateLimiter = rateLimiter;
+    f.reconcile.EnsureReconcile(rateLimiter) }` — without client sets `EnsureReconcile` does nothing.
+    The caches, their limiters and the applied spec are kept. -/
+def resetLimiter (w : World) (c : Str) (mode : Str) : World :=
+  w.setLim c { spec := (w.lims c).spec, caches := (w.lims c).caches, mode := mode }
 
 /-- `GetOrDefault(name)`: `none` = the default (exempt) limiter; `some none` = a nil limiter. -/
 def getOrDefault (w : World) (c n : Str) : Option (Option Nat) :=
   if n = [] then none
   else match (w.lims c).caches n with
     | none => none
-    | some cache => some cache.cur
+    | some cache => some (loadLimiter (w.lims c).mode cache)
+
+theorem loadLimiter_eq (mode : Str) (cache : Cache) : loadLimiter mode cache = cache.cur := by
+  unfold loadLimiter; split
+  · rfl
+  · split <;> rfl
 
 /-- `TryAcquire` on a limiter object under sequential use -/
 def Kind.tryAcquire (k : Kind) (tb : Bool) : Kind × Bool :=
@@ -236,6 +263,8 @@ def release (w : World) (i : Nat) : World × Bool :=
 
 inductive Op where
   | sync (c : Str) (schemas : List Schema)
+  /-- `ResetLimiter(mode)` (what `ClusterInfo.Sync` calls when the GlobalRateLimiter gate flips) -/
+  | reset (c : Str) (mode : Str)
   | acquire (c n : Str) (tb : Bool)
   | release (i : Nat)
   deriving Repr
@@ -257,6 +286,7 @@ def step (w : World) : Op → World × Out
     | .ok (w', b) => (w', .acquired b)
     | .error e => (w, .panic e)
   | .release i => let r := release w i; (r.1, .released r.2)
+  | .reset c mode => (resetLimiter w c mode, .synced)
 
 def Out.isPanic : Out → Bool
   | .panic _ => true
@@ -294,6 +324,7 @@ def answer (w : World) (c n : Str) (tb : Bool) : Option Bool :=
 def addresses (w : World) (op : Op) (c n : Str) : Prop :=
   match op with
   | .sync c' _ => c' = c
+  | .reset _ _ => False          -- a mode switch concerns no schema at all
   | .acquire c' n' _ => c' = c ∧ n' = n
   | .release i =>
     match w.reqs[i]? with
